@@ -267,7 +267,14 @@ func c02PoolHistory(ev *vlib.Evidence, driver string, idx int) {
 	r := vlib.Rand("C02-pool-"+driver, idx)
 	price := mustBig(c02Prices[r.Intn(len(c02Prices))])
 	interval := c02Intervals[r.Intn(len(c02Intervals))]
-	w, err := vlib.NewWorld(vlib.WorldOptions{Driver: driver, Price: price, Interval: interval})
+	// a quarter of the histories run with a (negative) minimum balance that the
+	// client crosses on the way: a keep-alive that is cut off has still been
+	// billed, so it moves exactly the same amounts and ends the billed stretch
+	var minBal *big.Int
+	if r.Intn(4) == 0 {
+		minBal = new(big.Int).Neg(new(big.Int).Mul(refCredit(interval, price, interval), big.NewInt(int64(1+r.Intn(6)))))
+	}
+	w, err := vlib.NewWorld(vlib.WorldOptions{Driver: driver, Price: price, Interval: interval, MinBalance: minBal})
 	if err != nil {
 		panic(err)
 	}
@@ -384,7 +391,12 @@ func c02PoolHistory(ev *vlib.Evidence, driver string, idx int) {
 		t1 := time.Now()
 		step := fmt.Sprintf("update by=%s elapsed=%s peers=%v tracked=%d credit=%s", updater.Name, elapsed, names, len(tracked), credit)
 		trace = append(trace, step)
-		if err != nil {
+		cutOff := false
+		if err != nil && minBal != nil && !hostUpdate && strings.Contains(err.Error(), "low balance") {
+			cutOff = true // whether the cut-off itself is right is C03's question
+			trace[len(trace)-1] += " -> cut off (low balance)"
+			ev.Count("pool-cut-off-keepalives", 1)
+		} else if err != nil {
 			ev.Violate("pool:"+driver+":update-failed", map[string]interface{}{"trace": trace, "err": err.Error()})
 			return
 		}
@@ -419,7 +431,12 @@ func c02PoolHistory(ev *vlib.Evidence, driver string, idx int) {
 				totalCharged.Add(totalCharged, new(big.Int).Mul(credit, big.NewInt(int64(len(tracked)))))
 			}
 			ck := accountOf(w.RawStore, client.NodeID)
-			if resp.Balance == nil || resp.Balance.Credit.Cmp(want[ck]) != 0 {
+			if cutOff {
+				// the client tops up and carries on without reconnecting
+				topUp := new(big.Int).Mul(new(big.Int).Neg(minBal), big.NewInt(3))
+				w.RawStore.AddNodeBalance(store.NodeID(client.NodeID), topUp)
+				trace = append(trace, "top-up "+topUp.String())
+			} else if resp.Balance == nil || resp.Balance.Credit.Cmp(want[ck]) != 0 {
 				got := "<nil>"
 				if resp.Balance != nil {
 					got = resp.Balance.Credit.String()
